@@ -156,7 +156,13 @@ Inductive layout := Early | Mid | Far.
    at the first character outside [0-9a-fA-F], Ok otherwise -- so the empty string, upper, lower and mixed
    case all decode; an odd number of hex digits, a 0x prefix, surrounding white space do not.  The [hex]
    flag of [KOk] is this function of the delivered value's shape (the check renders it that way and
-   computes the two arguments from the actual canary value). *)
+   computes the two arguments from the actual canary value).
+   The LENGTH is not part of it: 128-, 384- or 512-bit key material in well-formed hex decodes just like a 256-bit
+   one (HMAC takes a key of any length), so such a key is [KOk k true] -- stored, attested, used for signing -- and
+   must stay out of every sink but the key file; the check delivers values of 24 .. 128 hex digits.
+   The key FOLDER is abstract in this model: whether the configured path is the directory itself, a symlink (chain)
+   to it or a relative path makes no difference to the syscalls of [sys_trace]; the check judges mode and owner on
+   the directory that actually holds the key file. *)
 Definition hex_decode_accepts (even_length all_hex_digits : bool) : bool := even_length && all_hex_digits.
 
 (* answer to POST /secure-channel/key *)
